@@ -12,15 +12,105 @@ TB = ("Trusted base: CPython's ast parses the language the interpreter runs; nam
       "delegates to (frombuffer/tobytes inverse at the on-disk width, clump_unmasked, strict cp1252 encode, closed or "
       "read-only file objects refuse writes). ")
 
+def _p(tech, ref, text, note=""):
+    return dict(technique=tech, ref=ref, text=text, note=TB + note)
+
+
 P = {
-    "C01": dict(
-        technique="static: abstract interpretation of _write/_build into symbolic layout terms + term unification + symbolic round-trip substitution",
-        ref="3/C01",
-        text="Decides, from the source only, that writer and reader of each of the 20 block-level codec units agree on field order, "
-             "on-disk class and width, count linkage, attribute linkage, transform inversion and accepted formats - symbolically in "
-             "every element/segment count, so for all block shapes at once. It decides this structural clause, not bit-exact value "
-             "round trips (float payloads, integer range), which stay a runtime matter.",
-        note=TB + "Listed object invariants no code enforces are assumptions in the evidence (e.g. one calibration-map entry per camera)."),
+    "C01": _p("static: abstract interpretation of _write/_build into symbolic layout terms + term unification + symbolic round-trip substitution", "3/C01",
+              "Decides, from the source only, that writer and reader of each of the 20 block-level codec units agree on field order, on-disk class and width, "
+              "count linkage, attribute linkage, transform inversion and accepted formats - symbolically in every element/segment count, so for all block "
+              "shapes at once. It decides this structural clause, not bit-exact value round trips (float payloads, integer range), which stay a runtime matter.",
+              "Object invariants no code enforces are listed as assumptions in the evidence (e.g. one calibration-map entry per camera)."),
+    "C02": _p("static: size polynomials (nBytes vs bytes of the writer's layout term) + def-use on add_block", "3/C02",
+              "Decides that each unit's nBytes and the byte count of its writer are the same polynomial in the shape parameters (symbolic identity for all "
+              "shapes), that the reader consumes position by position what the writer emits, and that add_block takes entry.size, the write position and "
+              "later slot offsets from them. Does not decide that runtime objects have the shapes the codecs assume where no constructor guard exists.",
+              "numpy: bwrite writes base-itemsize x size bytes."),
+    "C03": _p("static: per-mutator CFG rules (slot balance by path enumeration, seek-target classification, geometry recomputed from layout terms, reaching-definition provenance)", "3/C03",
+              "Decides the per-operation preservation conditions that form the inductive step of the structural invariant: slot count balanced on every "
+              "normal path, no seek/write below the table, one geometry (header/entry sizes recomputed from the writers), unused slots built with size 0, "
+              "free-slot offsets derived from post-shift state. It does not decide the global non-overlap invariant over concrete histories."),
+    "C04": _p("static: frame-condition rules on entry fields + codec symmetry of TdfEntry + def-use/dominance in replace_block + exhaustive dispatch table check", "3/C04",
+              "Decides which entry fields and which byte ranges each mutator statement may touch: only .offset of surviving entries, whole-entry rewrite "
+              "through a symmetric TdfEntry codec, tail source/destination/shift use the same expressions, the comment is carried by an `is not None` "
+              "test on an entry captured before removal, and every BlockType member dispatches to the class of that type. Byte equality under concrete "
+              "histories is not decided."),
+    "C05": _p("static: pattern rule on _segments derivation, layout-term agreement of table and data loops, definite-initialisation (NaN prefill) dataflow on decoder terms", "3/C05",
+              "Decides that runs are derived by the canonical clump_unmasked(masked_invalid(x)) composition in all four gap-coded classes, that segment "
+              "table and data iterate the same runs with rows (start, stop-start) and data rows [start, stop), that every np.empty decode buffer gets a "
+              "whole-buffer NaN store before its first partial store and before escaping, and that decoder stores land on the run's own frames. The numpy "
+              "contract itself (all 2^n masks) is trusted, not decided.",
+              "numpy masked_invalid + clump_unmasked return the maximal runs of non-NaN entries."),
+    "C06": _p("static: conformance of writer and reader layout terms to an independent declarative reference layout; dtype endianness resolver", "3/C06",
+              "Decides that the layout term of every writer and every reader (22 records incl. header and table entry) equals an independent reference "
+              "table position by position (kind, width, shape, count linkage, reserved bytes, stored bias, format alternatives, grid/cell order) and that "
+              "every dtype/struct format is explicitly little-endian - so a change made consistently on both sides is reported. The thorough tier "
+              "additionally validates the reference table itself against the BTS capture with a stdlib struct parser (oracle sanity; no repository code "
+              "is executed). Golden digests of decoded values are not decided.",
+              "The reference table /verif/sa/reference_layout.py."),
+    "C07": _p("static: effect/reject classification + CFG reachability (no path effect ->+ refusal), taint (def-use) of request-derived data, callee summaries", "3/C07",
+              "Decides that on every path of every mutator everything that can refuse the request (escaping raises, evaluation on caller-supplied "
+              "objects, serialisation of request-derived data, calls to refusing mutators) precedes the first change to the file or the in-memory table, and "
+              "that late-refusing serialisers never get the live handle. This is the property for every rejection cause and file state, because the "
+              "argument does not depend on them; asynchronous/OS failures are out of scope."),
+    "C08": _p("static: typestate machine extracted from the AST + finite guard evaluation per reachable state; who-may-write and call-graph purity rules", "3/C08",
+              "Decides that file effects exist only in four owners and go through the handle, that the handle is opened only by open(self._mode) in "
+              "__enter__ and closed/reset unconditionally in __exit__, and - over all reachable (inside, mode, handle, allow_write-since-exit) states of "
+              "the extracted machine - that a mutator can reach a file effect only with a read-write handle inside a context entered after allow_write(); "
+              "readers and decoders are effect-free over their call-graph closure. The exact exception type of a refusal is not decided.",
+              "Closed and read-only file objects refuse writes."),
+    "C09": _p("static: reaching-definition provenance of the free-slot offset, dominance-ordered tail move, loop coverage rules, initial layout constants", "3/C09",
+              "Decides that the offset of the slot appended by remove_block is end-of-data of the post-shift table, that the tail move is seek/read/seek/"
+              "write/truncate/flush in that order with the same three expressions as the table shift, that re-pointing and shift loops cover the whole "
+              "tail unconditionally, and that Tdf.new points all slots at the end of the table. The arithmetic identity over concrete histories is not decided."),
+    "C10": _p("static: must-pass-through dataflow (dirty entry -> entry write), cursor-position analysis on the CFG (slot index = list index), flush-on-exit", "3/C10",
+              "Decides that every table change in memory is paired on every normal path with the whole-entry write of that entry at slot 64+288*i with i "
+              "its list index, that every path from a file effect to a normal return passes flush(), that the table is re-parsed from the header count on "
+              "every context entry, that the size comes from the file system and get_block decodes from the handle at the entry's offset."),
+    "C11": _p("static: swallowed-raise rule (exception hierarchy), name resolution of self attributes, sibling cross-check of accessor groups", "3/C11",
+              "Decides that the duplicate-type refusal is live code that reaches the caller and is decided over the entry table, that every self.<name> read in "
+              "Tdf resolves, that getter / predicate / setter / decoded class of each convenience group name one block type with `replace if present else add`, "
+              "and the definitions of len, blocks and lookup. Agreement on concrete histories follows from C10's pairing and is not re-proved."),
+    "C12": _p("static: def-use from reserved positions (taken from the reference layout) + interpretation check + NUL-cut idiom rule", "3/C12",
+              "Decides that at every reserved position of the layout the reader skips or reads raw with no use of the value and no content-dependent "
+              "operation (decode, enum conversion), that writers emit constant zeros there, and that BTSString.read returns a function of the bytes before "
+              "the first NUL only. Together with C01/C02/C13 this is the whole property; it is fully structural."),
+    "C13": _p("static: byte-length abstract domain (linear forms over size and encoded length with path constraints) over BTSString.write", "3/C13",
+              "Decides for all strings and all widths at once (the algebra is symbolic in both) that BTSString.write returns exactly `size` bytes of the form "
+              "text + NUL + zeros, preceded by a ValueError raised exactly when len+1 > size, with strict cp1252 and no truncation; that the reader's codec "
+              "agrees and cuts at the first NUL; that every call site passes a literal width in {32, 256}. Per-character cp1252 reversibility is trusted."),
+    "C14": _p("static: writer-derived content oracle vs conjunct analysis of __eq__ (coverage, zip length, NaN awareness, element __eq__)", "3/C14",
+              "Decides which stored fields take part in each __eq__ (every attribute the writer's layout term reads, unless __eq__ is byte-level), that "
+              "zip-based element comparisons are conjoined with a length comparison (directly or through the parallel channel list), that gap-capable sample "
+              "arrays are compared NaN-aware, that element classes of compared containers define __eq__, and Tdf.__eq__'s three conjuncts. Tolerance "
+              "semantics of allclose are not decided."),
+    "C15": _p("static: path enumeration of paired list mutations on each method's CFG, dominance of uniqueness guards, list/ndarray kind inference", "3/C15",
+              "Decides that index alignment of channel list and item list is preserved by every method on every path including exception paths and from every "
+              "way of obtaining a block (constructor, decoder): paired initialisation, pairwise mutations with nothing raise-capable in between, uniqueness "
+              "guard dominating explicit appends, provably fresh automatic channels, list-kind installs, roll-backs, label lookups, encoding order."),
+    "C16": _p("static: dominance of type/length guards over the append, who-may-write rule for the track containers, structural rule for the atomic setter, decoder argument linkage", "3/C16",
+              "Decides the property as stated for sequences of add-track and assign-track-list calls: both guards dominate the append and nothing mutates "
+              "self before them, only the four owners touch the containers, list assignment saves before reset, goes through the guarded add, catches "
+              "Exception, restores and re-raises, and decoders build tracks with the block's own frame count. Mutation through the list returned by the "
+              "getter is outside the property's quantifier."),
+    "C17": _p("static: dominance of the existence test over every file-creating call on the same path value; header layout conformance; signature-before-decode ordering", "3/C17",
+              "Decides that every file-creating call in new/copy is dominated by `if p.exists(): raise FileExistsError` on the path built from the argument, "
+              "that the empty container has the reference layout (version 1, 14 zero-size slots at 4096, nothing after), that __init__ refuses missing paths "
+              "and __enter__ compares the signature before decoding any field, and the copy direction. Races with other processes are not decided."),
+    "C18": _p("static: sibling cross-check of the four accessors of four classes (same container, three-way dispatch, literal label predicate, purity)", "3/C18",
+              "Decides the coherence relations structurally for every content (duplicates, empty labels, case variants - the predicate is a literal ==): all "
+              "four accessors read one container, int -> list position, str -> first match else KeyError, other -> TypeError, membership uses the same "
+              "predicate, and none of the 16 methods stores or mutates."),
+    "C19": _p("static: finite guard evaluation (truth tables over an exhaustive abstract input partition, Python precedence/short-circuit from the AST)", "3/C19",
+              "Decides the accept/refuse behaviour of every listed constructor guard over the whole abstract input space the guards can observe (12 "
+              "representative ndarray shapes incl. the required one and ranks 0-3, None, str, scalar, list, tuple) and that the accepted shape equals the shape "
+              "of the codec _write uses for that attribute; coupled arrays over all 8 shape combinations; viewport and event rules. dtype acceptability is "
+              "not decided."),
+    "C20": _p("static: escape analysis of mutable defaults (def-use + isinstance path conditions), class-level / module-level mutable state rules, decoder freshness", "3/C20",
+              "Decides the absence of the sharing channels between separately created blocks: no mutable default escapes into instance state, no class-level "
+              "or module-level container is mutated through instances/functions, container attributes are fresh per instance or the caller's own argument, "
+              "decoders return instances constructed in that call. Sharing the caller creates on purpose is outside the property."),
 }
 
 NOT_YET = "check not built yet in this revision (work in progress; see DESIGN.md section 3 for the planned static rule)"
